@@ -211,11 +211,12 @@ def rule_cm_window(check, rules):
     # threads, so a hasattr()/getattr() pair is a check-then-act race; the read and the delete must sit under a handler
     # that absorbs AttributeError
     if rules.get('probe'):
-        recvs = set(norm(wr[1]) for wr in foreign_attr_writes(en) if wr[3] in ('delattr', 'del'))
+        from .callgraph import resolve_once
+        recvs = set(norm(resolve_once(en.node, wr[1])) for wr in foreign_attr_writes(en) if wr[3] in ('delattr', 'del'))
         nprobe = 0
         for node in _own_nodes(en.node):
             if not (isinstance(node, ast.Call) and isinstance(node.func, ast.Name) and node.func.id in ('getattr', 'delattr') and node.args
-                    and norm(node.args[0]) in recvs):
+                    and norm(resolve_once(en.node, node.args[0])) in recvs):
                 continue
             if node.func.id == 'getattr' and len(node.args) + len(node.keywords) >= 3:
                 continue        # defaulted form cannot raise AttributeError
@@ -300,9 +301,10 @@ def rule_cm_window(check, rules):
     # ---- receiver provenance (C17.R1)
     init = ci.methods.get('__init__')
     recv = None
+    from .callgraph import resolve_once as _ro
     for wr in foreign_attr_writes(en):
         if wr[3] in ('delattr', 'del'):
-            recv = norm(wr[1])
+            recv = norm(_ro(en.node, wr[1]))      # (a local bound once to self.<attr> stands for it)
     key = '%s|receiver' % ci.key
     if rules.get('confined'):
         prov = None
